@@ -72,7 +72,8 @@ def encode_world(w):
         out.append(frame("w", "%d %d" % (w["winsize"][0], w["winsize"][1])))
     ur = w.get("urandom") or {}
     out.append(frame("r", "%d %d %d" % (ur.get("seed", 1), ur.get("absent_errno", 0), ur.get("short_after", -1))))
-    out.append(frame("c", "%d %d %d" % (w.get("cap", 10000), 1 if w.get("fill_stack", True) else 0, 1 if w.get("probe", True) else 0)))
+    pr = w.get("probe", True)
+    out.append(frame("c", "%d %d %d %d" % (w.get("cap", 10000), 1 if w.get("fill_stack", True) else 0, (2 if pr == 2 else 1) if pr else 0, w.get("alarm_s", 30))))
     out.append(frame("."))
     return b"".join(out)
 
